@@ -59,6 +59,8 @@ def programs(tier):
     plan = [
         ("gen0", 12 if not thorough else 40, ["node-nmap-ping-scan", "node-nmap-port-scan", "node-network-service-recon", "router-acl-add-rule",
                                               "node-shutdown", "node-application-execute"]),
+        # observation lists that name an entry twice; ACL rules with listed addresses inside the observed window
+        ("gen4", 8 if not thorough else 24, ["router-acl-add-rule", "router-acl-remove-rule"]),
         ("data_manipulation", 14 if not thorough else 60, ["router-acl-addrule", "node-shutdown", "node-file-delete", "router-acl-add-rule"]),
         ("uc7", 14 if not thorough else 50, ["node-shutdown", "router-acl-add-rule"]),
         ("uc7_tap003", 10 if not thorough else 50, ["node-shutdown"]),
